@@ -1,5 +1,5 @@
 """C02 - exact partitioners attain the true optimum of their objective."""
-from .. import core, scope, drive, gen
+from .. import core, scope, drive, gen, models
 from .common import *
 
 DP_OBJS = lambda k: [("diff", 0), ("maxsum", 0), ("minsum", 0)] + [(o, kp) for o in ("klargest", "ksmallest") for kp in range(1, k + 2)]
@@ -35,6 +35,10 @@ def run(ck):
     if r.violated:
         raise core.Machinery("oracle cross-validation failed: Opt disagrees with brute force")
     ck.violations = [v for v in ck.violations if not v[0].startswith("model:OracleX")]
+    # L1: the complete-greedy machine is optimal on completion and never prunes away every optimal completion (B&B safety at every step);
+    # its terminal states are replayed into the real code (identical partition, identical number of loop iterations, else DRIFT)
+    models.cg_mc(ck, 4 if q else 5, 3 if q else 4, 3, models.SW_ALL, False, ["Optimal", "BBSafe", "BestConsistent"])
+    models.cg_replay(ck, 4 if q else 5, 3 if q else 4, 3, models.SW_ALL)
     groups = []
     ilp_objs = [("diff", 0), ("maxsum", 0), ("minsum", 0), ("klargest", 2), ("ksmallest", 2)]
     for i, g in enumerate(P):
